@@ -44,10 +44,48 @@ def build_flags():
 
 # ------------------------------------------------------------------------------- scenarios
 
-def line(size, nlocks, nqueues, nctr, deps, progs, mode, arg, cap=200):
+def line(size, nlocks, nqueues, nctr, deps, progs, mode, arg, cap=200, hydro=None):
     d = " ".join("%s %s" % ("-" if a is None else a, "-" if b is None else b) for a, b in deps)
+    if hydro is not None:
+        d += " H " + " ".join("%s:%d" % (",".join(map(str, ch)) if ch else "-", q) for ch, q in hydro)
     return "S %d %d %d %d %d T %s | %s | %s %s" % (size, cap, nlocks, nqueues, nctr, d,
                                                   " | ".join(" ".join(p) for p in progs), mode, arg)
+
+
+def hydro_lines(rng, count):
+    """the counter protocol of the hydro worker loop on random task DAGs: thread 0 resets the parent
+    counters and seeds the roots, then every thread runs iterations  value(); get_task; unlock_dependency;
+    release children; pre_decrement  on its own queue and on the others (stealing)"""
+    ops = []
+    for _ in range(count):
+        nt = rng.randint(2, 7)
+        nq = rng.randint(1, 2)
+        nlocks = rng.randint(1, 3)
+        nthreads = rng.choice([2, 2, 3])
+        children = []
+        for t in range(nt):
+            later = list(range(t + 1, nt))
+            rng.shuffle(later)
+            children.append(sorted(later[:rng.choice([0, 1, 1, 2, 3])]))
+        parents = [sum(1 for ch in children if t in ch) for t in range(nt)]
+        deps = rand_deps(rng, nlocks, nt)
+        hydro = [(children[t], rng.randrange(nq)) for t in range(nt)]
+        progs = [[] for _ in range(nthreads)]
+        for t in range(nt):
+            progs[0].append("su:%d:%d" % (t, parents[t]))
+        nroots = 0
+        for t in range(nt):
+            if parents[t] == 0:
+                progs[0].append("sd:%d:%d" % (hydro[t][1], t))
+                nroots += 1
+        for th in range(nthreads):
+            for it in range(rng.randint(nt, 2 * nt)):
+                q = (th + it) % nq
+                progs[th] += ["ln", rng.choice(["p", "p", "tp"]) + ":%d" % q, "ut:0", "rl"]
+        style = rng.choice(["setup-first", "setup-first", "racy"])
+        pre = "0" * (nt + 3 * nroots) if style == "setup-first" else ""
+        ops.append(line(1, nlocks, nq, 1, deps, progs, "X", pre + rand_sched(rng, nthreads, rng.randint(20, 120)), hydro=hydro))
+    return ops
 
 
 # two-thread families enumerated over every schedule prefix (thorough: exhaustive up to length L)
@@ -232,6 +270,8 @@ EXPECTED_TAGS = [
     "tryPopLock>idle", "tryPopLock>popInit", "popUnlockT>idle", "popUnlockN>idle",
     "cInc>idle", "cDec>idle", "cPostInc>idle", "cPreAdd>idle", "cPostAdd>idle", "cPreSub>idle", "cLoad>idle",
     "lfLoad>lfCas", "lfCas>idle", "lfCas>lfCas",
+    "setUnf>idle", "loadNum>idle", "addUnlockK>numInc", "numInc>idle", "numInc>relDec", "numInc>retire",
+    "relDec>relDec", "relDec>addLock", "relDec>retire", "retire>idle",
 ]
 
 
@@ -248,6 +288,8 @@ def run(ctx):
         "TaskQueue capacity, size_t wrap-around of the cursor and of the counters are not modelled (unbounded Nat / Int); assertions are compiled out (HAVE_ASSERTIONS off) as in the configured build",
         "callers free / unlock only what they hold (the model's free/unlock calls take the j-th owned slot / held lock); add_photons on an exhausted pool is undefined behaviour in the C++ and is a stuck state of the model",
         "LockFree.hpp: only the integer compare-exchange loop is modelled (counter_invariant); floating-point addition is not associative, so for doubles the statement is only that no update is lost",
+        "hydro worker loop (TaskBasedRadiationHydrodynamicsSimulation.cpp): the fragment after unlock_dependency() (children loop, pre_increment, pre_decrement), the initial add_task/pre_increment loop and set_number_of_unfinished_parents are modelled as calls `release`, `seed`, `setUnf`; the harness transcribes the fragment around the real Task/TaskQueue/AtomicValue members; uint8/uint32 wrap-around of the counters not modelled",
+        "refinement to the abstract lock-level spec (Model/AtomicsSpec.lean) covers the lock/queue part only: that executing a task touches nothing outside the resources it declares is not in scope",
     ]
     ok = ctx.obligations("CMacVerif.Props.C08", ["drv_c08"])
     inc, libs = build_flags()
@@ -270,6 +312,7 @@ def run(ctx):
     streams.append(("random-schedules", rnd))
     streams.append(("adversarial-pool", adversarial_lines(rng, ctx.budget(400, 15000))))
     streams.append(("solo-pops", solo_lines(rng, ctx.budget(300, 8000))))
+    streams.append(("hydro-counter-protocol", hydro_lines(rng, ctx.budget(300, 8000))))
     streams.append(("free-running", free_lines(rng, ctx.budget(40, 500))))
     ctx.cov["rule"] = ("schedule replay of the real containers (hook H1, baton scheduler, real std::threads): "
                        "every schedule prefix of length %d for %d two-thread program pairs (completed round-robin), "
@@ -325,7 +368,13 @@ MANIFEST = dict(
           "lock's mutual exclusion for the re-read of _queue[index]; +task_holds_locks, queue_body_exclusive), rollback, add_photons_conserves "
           "(+add_photons_no_loss: no buffer above PHOTONBUFFER_SIZE, free slot = empty buffer, nothing dropped, for clients that release "
           "through free_buffer), and the progress statements slot_released, wraparound (any cursor value, pool full except one slot) and "
-          "pop_available in their obstruction-free form (the thread runs without interference); no theorem is left _partial. Model tied to the "
+          "pop_available in their obstruction-free form (the thread runs without interference). Task-level atomicity assumed by C07/C01 is discharged "
+          "at this level: running_tasks_conflict_free (any two running tasks have disjoint declared lock sets = guard of Worker.acquire), "
+          "pop_is_atomic_acquire (refinement: every execution projects - acquire at the atomic operation that takes the LAST lock, finish at the "
+          "first unlock of unlock_dependency, add at the add_task body - to an enabled execution of the abstract lock-level spec "
+          "Model/AtomicsSpec.lean; +acquire_guard, acquire_at_most_once), failed_pop_changes_nothing (stutter form + memory form), and the hydro "
+          "worker-loop counter protocol hydro_counter / hydro_counter_zero (number_of_tasks is never 0 while a task is queued or running, once "
+          "the initial loop is over). No theorem is left _partial. Model tied to the "
           "real containers by deterministic schedule replay of real std::threads through hook H1: returned values in schedule order and the "
           "final shared state identical, plus oracles on the implementation."),
     note=("Trusted: Lean kernel + 3 axioms; sequential consistency of C++11 seq_cst atomics assumed, not derived; non-atomic reads of "
@@ -333,7 +382,10 @@ MANIFEST = dict(
           "the counter_linear-style (no lost update) statement on the integer compare-exchange loop; queue capacity and size_t wrap-around of "
           "cursor/counters not modelled (number_taken_nonneg shows the occupancy counter never wraps); progress theorems (slot_released, "
           "wraparound, pop_available) are for an undisturbed thread - under interference another thread may legitimately win the slot/locks; "
-          "callers free/unlock only what they hold; add_photons on an exhausted pool is undefined behaviour in the C++ (stuck state in the model)."),
+          "callers free/unlock only what they hold; add_photons on an exhausted pool is undefined behaviour in the C++ (stuck state in the model). "
+          "The release fragment of the hydro worker loop (children / pre_increment / pre_decrement) is transcribed into the harness (real Task, "
+          "TaskQueue, AtomicValue members; the loop itself is tied by C07's trace); what a task's sweep touches is outside this model "
+          "(lock set = footprint stays C07's/C01's assumption); hydro_counter assumes tasks enter queues only via the initial loop and child release."),
     technique=("Lean 4 proof: sum-over-threads invariants (frame lemma + local step lemma per program counter + omega, lifted by List.foldl "
                "induction), ownership-frame arguments from slot/lock uniqueness, solo-run inductions for progress + deterministic schedule "
                "replay of real std::threads through a yield hook (baton scheduler), exhaustive schedule prefixes for two threads x short programs"))
